@@ -134,6 +134,12 @@ func (bf *Filter) matches(data []byte) bool {
 		return false
 	}
 
+	// An empty bit array matches everything.  This also avoids the modulo by
+	// zero in hash (CVE-2013-5700).
+	if len(bf.msgFilterLoad.Filter) == 0 {
+		return true
+	}
+
 	// The bloom filter does not contain the data if any of the bit offsets
 	// which result from hashing the data using each independent hash
 	// function are not set.  The shifts and masks below are a faster
@@ -190,6 +196,12 @@ func (bf *Filter) MatchesOutPoint(outpoint *wire.OutPoint) bool {
 // This function MUST be called with the filter lock held.
 func (bf *Filter) add(data []byte) {
 	if bf.msgFilterLoad == nil {
+		return
+	}
+
+	// Nothing can be added to an empty bit array; this also avoids the modulo
+	// by zero in hash (CVE-2013-5700).
+	if len(bf.msgFilterLoad.Filter) == 0 {
 		return
 	}
 
